@@ -80,6 +80,7 @@ type pipeHalf struct {
 	caps        []int // short-read caps for the reader, cycled; 0 = whole segment
 	capIdx      int
 	eofWithData bool // Read returns the last octets together with io.EOF when the FIN is already there
+	rendezvous  bool // the writer waits for the reader: tell it when octets are taken
 
 	// recording
 	buf      []byte
@@ -105,6 +106,9 @@ type ConnFaults struct {
 	// expires or this endpoint is closed by another goroutine.
 	BlockWriteAt int
 	BlockFor     Dur
+	// Rendezvous: no buffering on this endpoint's outgoing half - a Write returns when the
+	// peer has read every octet of it (as on net.Pipe, or with send and receive windows full)
+	Rendezvous bool
 }
 
 // SimConn is one endpoint of a simulated full-duplex connection.
@@ -196,6 +200,11 @@ func (c *SimConn) Read(b []byte) (int, error) {
 			return 0, closedErr("read")
 		}
 		now := time.Now().UnixNano()
+		if h.deadline != 0 && h.deadline <= now {
+			// as the runtime's poller does: a deadline that has passed fails the call
+			// even if octets are waiting
+			return 0, errTimeout
+		}
 		if len(h.q) > 0 {
 			s := &h.q[0]
 			if s.at <= now {
@@ -215,6 +224,9 @@ func (c *SimConn) Read(b []byte) (int, error) {
 				}
 				h.rlog = append(h.rlog, RRec{Off: h.consumed, N: n, At: now})
 				h.consumed += n
+				if h.rendezvous {
+					h.cond.Broadcast()
+				}
 				if h.eofWithData && len(h.q) == 0 && h.wclosed && !h.reset {
 					// the last octets and the end of the stream in one call, as io.Reader
 					// allows and crypto/tls does when the close_notify is already there
@@ -327,6 +339,7 @@ func (c *SimConn) Write(b []byte) (int, error) {
 
 	blockHere := c.faults.BlockWriteAt > 0 && nw == c.faults.BlockWriteAt && len(b) > 0
 	lockedHere := blockHere && connLocked(c) // (probed with no harness lock held)
+	rendezvous := c.faults.Rendezvous && len(b) > 0 && !connLocked(c)
 
 	h := c.wr
 	h.mu.Lock()
@@ -386,6 +399,33 @@ func (c *SimConn) Write(b []byte) (int, error) {
 		off += sz
 	}
 	h.cond.Broadcast()
+	if rendezvous {
+		// wait until the peer has taken everything (never under Conn.locker)
+		h.rendezvous = true
+		want := len(h.buf)
+		for h.consumed < want && !h.rclosed && !h.wclosed && !h.reset {
+			c.wmu.Lock()
+			wd := c.wdeadline
+			c.wmu.Unlock()
+			now := time.Now().UnixNano()
+			if wd != 0 {
+				if now >= wd {
+					return len(b) - (want - h.consumed), &net.OpError{Op: "write", Net: "sim", Err: os.ErrDeadlineExceeded}
+				}
+				d := Dur(wd - now)
+				go func() {
+					time.Sleep(d)
+					h.mu.Lock()
+					h.cond.Broadcast()
+					h.mu.Unlock()
+				}()
+			}
+			h.cond.Wait()
+			h.mu.Unlock()
+			sleepClass(c.wclass, 0)
+			h.mu.Lock()
+		}
+	}
 	return len(b), nil
 }
 
